@@ -605,6 +605,41 @@ Proof.
     now rewrite IHr.
 Qed.
 
+(* returns of frames that were never called under the profiler are dropped by the depth guard *)
+Lemma depth_guard_returns : forall rets, forallb (fun e => match fe_kind e with Return => true | _ => false end) rets = true ->
+  depth_guard O rets = [].
+Proof.
+  induction rets as [|e r IH]; intros H; [reflexivity|]. cbn in H. apply andb_prop in H as [H1 H2].
+  cbn [depth_guard]. destruct (fe_kind e); try discriminate. now apply IH.
+Qed.
+
+Theorem exit_by_exception_current : forall fns f rets,
+  forallb (fun e => match fe_kind e with Return => true | _ => false end) rets = true ->
+  depth_guard O (ievents fns f ++ rets) = ievents fns f.
+Proof. intros. rewrite depth_guard_ievents, depth_guard_returns by assumption. apply app_nil_r. Qed.
+
+(* ---------------------------------------------------------------- main line: the current code (c_fixed = true) *)
+Theorem run_forest_current : forall c f ci co l, c_fixed c = true ->
+  0 <= ci -> 0 <= co -> 0 <= l ->
+  run c {| cin := ci; cout := co; lc := l |} (events f) =
+  ({| cin := ci; cout := co; lc := l |}, hooks_of (select c ci co l f)).
+Proof. intros c f ci co l F Hi Ho Hl. apply run_forest; try assumption. now left. Qed.
+
+Theorem balanced_current : forall c f, c_fixed c = true -> balanced (snd (run c st0 (events f))) = true.
+Proof. intros. apply balanced_run. now left. Qed.
+
+Theorem counters_current : forall c f s, c_fixed c = true -> 0 <= cin s -> 0 <= cout s -> 0 <= lc s ->
+  fst (run c s (events f)) = s.
+Proof. intros. apply counters_restored; try assumption. now left. Qed.
+
+Theorem mc_run_current : forall c f, c_fixed c = true ->
+  mc_run [] (snd (run c st0 (events f))) = ([], records_of O (select c 0 0 0 f), O).
+Proof. intros. apply mc_run_forest. now left. Qed.
+
+Theorem prefix_current : forall c f p q, c_fixed c = true -> events f = p ++ q ->
+  no_underflow (snd (run c st0 p)) = true.
+Proof. intros c f p q F E. apply (prefix_no_underflow c f p q); [now left|assumption]. Qed.
+
 (* ---------------------------------------------------------------- the run-time checker accepts the model *)
 (* names are compared with name_eqb; reflexivity of the executable equalities *)
 Lemma sym_eqb_refl : forall s, sym_eqb s s = true.
